@@ -161,7 +161,7 @@ class InverseLaplaceTransformer(UnilateralInverseTransformer):
             if o == 1:
                 for n in range(m + 1, len(R)):
                     qp2 = QP[n]
-                    if not qp.is_conjugate_pair(qp2):
+                    if O[n] != 1 or not qp.is_conjugate_pair(qp2):
                         continue
 
                     # The residues are complex conjugates but this
